@@ -26,6 +26,22 @@ for b in $_f2; do
   [ $_r -gt $_rc ] && _rc=$_r
   _parts="$_parts $b-relcheck"
 done
+# the true dev profile (opt-level 0, debug assertions, overflow checks): the explicit failure set and the
+# raw-pointer add/sub space always; every other space (at its quick size) in the thorough tier
+if [ "$tier" = "thorough" ]; then _devbins="c14 c15 $_f2"; else _devbins="c14 c15"; fi
+if build dev $_devbins; then
+  for b in $_devbins; do
+    if [ "$b" = c14 ]; then
+      NBMC_NO_PYREF=1 NBMC_PART=c14-dev NBMC_CONFIG=dev "$(bindir dev)/c14" "$tier"; _r=$?
+    else
+      NBMC_AS=C14 NBMC_ONLY_CLASS=1 NBMC_NO_PYREF=1 NBMC_PART=$b-dev NBMC_CONFIG=dev "$(bindir dev)/$b" quick | grep -v "^C14\[" ; _r=${PIPESTATUS[0]}
+    fi
+    [ $_r -gt $_rc ] && _rc=$_r
+    _parts="$_parts $b-dev"
+  done
+else
+  [ $_rc -lt 2 ] && _rc=2
+fi
 _wall=$(python3 -c "import time,sys; print('%.1f' % (time.time()-float(sys.argv[1])))" "$_t0")
 python3 "$ROOT/tools/merge_evidence.py" C14 "$tier" "$_wall" $_parts || exit 2
 exit $_rc
